@@ -152,6 +152,19 @@ RuleKinds(r, v, x) ==
   /\ root' = Wrap(IF x = 1 THEN "root" ELSE "prop", ScalarCat[IF x = 1 THEN 1 ELSE 4].text \o " // {" \o RuleNamesAll[r] \o ": " \o RuleValuesAll[v] \o "}")
   /\ typ' = "\"s\"" /\ expect' = "unknown"
 
+\* ---- numeric rules with values at and beyond the machine word sizes, on a value that fits the rule
+BigValues == <<"2147483648", "4294967295", "9223372036854775807", "9223372036854775808", "18446744073709551615",
+               "18446744073709551616", "1000000000000000000000000000000">>
+BigRules == <<[r |-> "precision", v |-> "1.5", pre |-> "type: \"decimal\", "], [r |-> "min", v |-> "1.5", pre |-> ""],
+              [r |-> "max", v |-> "1.5", pre |-> ""], [r |-> "minLength", v |-> "\"a\"", pre |-> ""],
+              [r |-> "maxLength", v |-> "\"a\"", pre |-> ""], [r |-> "minItems", v |-> "[]", pre |-> ""],
+              [r |-> "maxItems", v |-> "[]", pre |-> ""]>>
+BigRule(r, b, neg) ==
+  /\ stage = "start" /\ fam' = "bigrule" /\ stage' = "done" /\ list' = <<>>
+  /\ (neg => BigRules[r].r \in {"min", "max"})
+  /\ root' = BigRules[r].v \o " // {" \o BigRules[r].pre \o BigRules[r].r \o ": " \o (IF neg THEN "-" ELSE "") \o BigValues[b] \o "}"
+  /\ typ' = "" /\ expect' = "unknown"
+
 Skels == {"root", "prop", "item", "ref"}
 Next == \/ StartEnum
         \/ \E i \in 1..N : EnumAdd(i)
@@ -161,6 +174,7 @@ Next == \/ StartEnum
         \/ \E i \in 1..Len(FmtCat), s \in Skels \ {"ref"} : Format(i, s)
         \/ \E i \in 1..Len(NumCat), b \in 1..Len(NumCat), m \in 0..2 : Or2("num", i, b, m)
         \/ \E i \in 1..Len(StrCat), b \in 1..Len(NumCat), m \in 0..2 : Or2("str", i, b, m)
+        \/ \E r \in 1..Len(BigRules), b \in 1..Len(BigValues), neg \in BOOLEAN : BigRule(r, b, neg)
         \/ \E r \in 1..Len(RuleNamesAll), v \in 1..Len(RuleValuesAll), x \in 1..2 : RuleKinds(r, v, x)
         \/ \E n \in ScaledSizes, sh \in 1..Len(ScaledShapes) : Scaled(n, sh)
         \/ \E i \in 1..(Len(TypeVocab) + 1) : ApVocab(i)
